@@ -24,7 +24,7 @@ static inline HFH hf(FH f, int s) { return f.halfface_handle(s); }
 
 // --------------------------------------------------------------------------- base family
 enum Base { B_EMPTY = 0, B_LOWDIM = 1, B_TET = 2, B_TET2_FACE = 3, B_TET2_EDGE = 4, B_TET2_VERTEX = 5, B_TET3_RING = 6, B_HEX = 7, B_HEX2 = 8,
-            B_PRISM_PYR = 9, B_TRI2 = 10, B_TET3_FAN = 11, N_BASES = 12 };
+            B_PRISM_PYR = 9, B_TRI2 = 10, B_TET3_FAN = 11, B_TWOFACE = 12, B_TET_ODD = 13, N_BASES = 14 };
 
 // one tetrahedron on vertices a,b,c,d (new faces as needed; shared faces are found by the caller)
 static inline CH tet_on(TopologyKernel &m, int a, int b, int c, int d) {
@@ -107,6 +107,19 @@ static void build_base(TopologyKernel &m, unsigned b) {
     m.add_cell(vec5(hf(t0, 0), hf(t1, 0), hf(q0, 0), hf(q1, 0), hf(q2, 0)));
     FH s0 = tri(m, 1, 2, 6), s1 = tri(m, 2, 5, 6), s2 = tri(m, 5, 4, 6), s3 = tri(m, 4, 1, 6);
     m.add_cell(vec5(hf(q1, 1), hf(s0, 0), hf(s1, 0), hf(s2, 0), hf(s3, 0)));
+    break; }
+  case B_TET_ODD: {  // one tetrahedron whose faces were created with the outward orientation: the cell lists the ODD halffaces (4V 6E 4F 1C)
+    m.add_n_vertices(4);
+    FH A = tri(m, 2, 1, 0), B = tri(m, 1, 3, 0), C = tri(m, 2, 3, 1), D = tri(m, 3, 2, 0);
+    m.add_cell(vec4(hf(A, 1), hf(B, 1), hf(C, 1), hf(D, 1)));
+    break; }
+  case B_TWOFACE: {  // tet X=(0,1,2,3); 6-face cell Y glued to X across TWO faces (0,1,2) and (1,3,2); tet Z across (0,3,1): 6V 13E 11F 3C
+    m.add_n_vertices(6);
+    tet_on(m, 0, 1, 2, 3);   // F0=(0,1,2) F1=(0,3,1) F2=(1,3,2) F3=(0,2,3); X lists [F0,F1,F2,F3]: Y, Z, Y, boundary
+    FH y0 = tri(m, 0, 1, 4), y1 = tri(m, 2, 0, 4), y2 = tri(m, 3, 2, 4), y3 = tri(m, 1, 3, 4);
+    m.add_cell(vec6(hf(FH(0), 1), hf(FH(2), 1), hf(y0, 0), hf(y1, 0), hf(y2, 0), hf(y3, 0)));
+    FH z0 = tri(m, 3, 1, 5), z1 = tri(m, 0, 3, 5), z2 = tri(m, 1, 0, 5);
+    m.add_cell(vec4(hf(FH(1), 1), hf(z0, 0), hf(z1, 0), hf(z2, 0)));
     break; }
   default: break;
   }
